@@ -168,6 +168,9 @@ class World:
             _, n, w, fmt = op
             img = content(self.cseed, n, shape_of(self.size, fmt)).copy()
             self.bases[n] = img.copy()
+            if img.ndim == 3 and n % 4 == 1:
+                # the common idiom `rgb = bgr[..., ::-1]`: a NON-contiguous view whose channel reversal is a contiguous buffer (same pixels as before)
+                img = _np.ascontiguousarray(img[..., ::-1])[..., ::-1]
             if not w:
                 # read-only arrays come in two kinds: an array that owns its data, frozen; and (every other one) a read-only VIEW into a foreign buffer,
                 # np.frombuffer(message).reshape(...) - what MQ.topicmsgs2frames builds raw frames from (ndarray.base is an ndarray)
